@@ -46,6 +46,18 @@ CHECKS = {
              "(spec/Trace_Aisle.tla) with the same predicates. Bounded-exhaustive over the format's alphabet, sampled beyond.",
         design="6 (C11), 3.8", technique="TLA+ model (CookAisle) + TLC exhaustive generation + trace validation of recorded aisle::parse runs",
         note="Trusted: TLC, the JSON reader, the recorder's projection. Inputs beyond the bound are only sampled (seeded)."),
+    "C12": dict(
+        text="Number::new_approx and its lookup table are transcribed into exact integer arithmetic on the dyadic grid "
+             "W + j/4096 (spec/CookFraction.tla: table construction, nearest search with tie-break, round-to-integer "
+             "shortcut, limits). TLC explores grid x max denominator x accuracy x whole limit exhaustively and checks the "
+             "C12 postcondition on the model's own answers; every point is replayed into the real function and TLC judges "
+             "the recorded results (spec/Trace_Fraction.tla): declines non-positive/non-finite, whole within limit, "
+             "denominator supported and <= max, 0 < num < den, exact value, error within accuracy, integers plain, "
+             "printed form. Agreement with the model's choice of fraction is drift only. Special and seeded random "
+             "values extend beyond the grid.",
+        design="6 (C12), 3.10", technique="TLA+ transcription of the approximation + TLC exhaustive grid + trace validation of recorded results",
+        note="Trusted: TLC; IEEE-754 facts (exactness within 4 ulp, error bound, integrality) are computed by the harness "
+             "because TLC has no floating point; accuracies are whole percents in the model."),
 }
 
 NOT_YET = "check not built yet in this session (work in progress, see DESIGN.md section 10)"
